@@ -228,7 +228,7 @@ func main() {
 		}
 	}
 	if c.Thorough() {
-		// all lists of length 3 over the menu, and every length 3..300 of the numbered family
+		// all lists of length 3 over the menu, and every length 3..1100 of the numbered family
 		for _, a := range menu {
 			for _, b := range menu {
 				for _, d := range menu {
@@ -249,7 +249,7 @@ func main() {
 		lists = append(lists, long(n))
 	}
 	if c.Thorough() {
-		for n := 3; n <= 300; n++ {
+		for n := 3; n <= 1100; n++ { // every length across four flush thresholds of the 256-triangle buffer
 			lists = append(lists, long(n))
 		}
 	}
@@ -308,7 +308,7 @@ func main() {
 	hp := filepath.Join(work, "history.stl")
 	hseqs := [][]int{{300, 3, 0, 1}, {1, 300, 2}, {82, 81}}
 	if c.Thorough() {
-		sz := []int{0, 1, 2, 81, 82, 300}
+		sz := []int{0, 1, 2, 81, 82, 255, 256, 257, 300, 513}
 		for _, a := range sz {
 			for _, b := range sz {
 				hseqs = append(hseqs, []int{a, b})
